@@ -20,7 +20,7 @@ SPEC = {
         {"name": "group", "pkg": "./group", "search_cases": 8000, "timeout_quick": 600},
         {"name": "groupsched", "pkg": "./groupsched", "search_cases": 6000, "timeout_quick": 240},
         # "contains every non-suppressed alert of that group known at flush time", across dispatcher restarts (engine sys of C01/C04/C05)
-        {"name": "sys", "pkg": "./sys", "search_cases": 4000, "quick_cases": 300, "timeout_quick": 90, "only": ["flush_lists_all", "no_orphan_live_group"]},
+        {"name": "sys", "pkg": "./sys", "search_cases": 4000, "quick_cases": 300, "timeout_quick": 90, "only": ["flush_lists_all", "no_orphan_live_group", "flush_sent_content"]},
         # "GET /alerts/groups shows exactly this partition": never a half-built one while a (re)started dispatcher is still loading (C14's engine)
         {"name": "workers", "pkg": "./workers", "search_cases": 4000, "quick_cases": 800, "only": ["groups_api_is_partition"]},
         # never two live dispatchers (two live groups per key) while a reload is in progress (C17's engine, slow reload)
